@@ -6,7 +6,7 @@ code.  The model's `crash` outcome marks the arithmetic region of the known find
 import random
 
 from harness import core
-from harness.framework import Outcome
+from harness.framework import Outcome, jsonable
 from harness.gen import SchemaGen, ValueGen, families
 
 ID = "C10"
@@ -19,12 +19,100 @@ ASSUMPTIONS = [
 N_SCHEMAS = {"quick": 1200, "thorough": 30000}
 UNICODE = ["", "é", "😀", "\u0000", "á", "‮", "ß", "İ", "﻿", "\U0010ffff", "a b", "\t", "𝒳", "²", "½", "\u0007"]
 
+# --- titles: the metaschema allows ANY string as "title"; the parser turns the title of every class-building (object) schema into
+# a class name, so the title is parser input like any other string.  Titles are built from character classes, not from a word list.
+TITLE_ALPHABETS = {
+    "ascii-letter": "abcxyzABCXYZ",
+    "ascii-digit": "0123456789",
+    "ascii-punct": "-_!.$/\\'\"{}()[]%#@:;,*+=<>?|~^&`",
+    "space": " \t\n\r\u00a0\u2003\u3000",
+    "latin-1": "éèÜïßñçøÅ",
+    "cjk": "日本語中文한글かな",
+    "other-script": "ЖдяαβγΩעבאعربदेवไทย",
+    "non-ascii-digit": "٣５²①௧𝟙Ⅷ¼",
+    "astral": "😀𝒳🂡\U0010ffff",
+    "control-format": "\u0000\u0007\u001b\u007f\u200b\u202e\ufeff\u00ad",
+    "combining": "\u0301\u0308\u20dd",
+}
+# titles with a meaning of their own for Python / for the library (keywords, dunders, the library's own class names), and boundary shapes
+FIXED_TITLES = ["", "class", "None", "def", "import", "True", "__class__", "__init__", "__dict__", "_", "__", "Object", "Element", "Array", "type",
+                "3d model", "123", "0", "3", "1st place", "a1", "1a", "x" * 5000, "9" * 400, "-", "---", "!", " ", "  ", "\n", ".", "/", "{}", "{0}", "%s",
+                "日本語", "éè", "Ünï", "ß", "İ", "😀", "\u0000", "\u200b", "٣", "²", "a\u0301", "\u0301", "_1", "-1", "1-", " a ", "a-b-c", "A", "a", "aB", "ABC"]
+
+
+def random_title(rng):
+    names = sorted(TITLE_ALPHABETS)
+    classes = [rng.choice(names if rng.random() < 0.6 else [n for n in names if n.startswith("ascii-")]) for _ in range(rng.choice([1, 1, 1, 2, 2, 3]))]
+    n = rng.choice([1, 1, 2, 3, 5, 8])
+    return "".join(rng.choice(TITLE_ALPHABETS[rng.choice(classes)]) for _ in range(n))
+
+
+def title_shape(t):
+    """coverage class of a title, by what it is made of (recorded in the stats)"""
+    ascii_alnum = [c for c in t if c.isascii() and c.isalnum()]
+    if not t:
+        return "empty"
+    if not ascii_alnum:
+        return "no-ascii-alnum"          # nothing an identifier could be made of in ASCII
+    if all(c.isdigit() for c in ascii_alnum):
+        return "ascii-digits-only"
+    if ascii_alnum[0].isdigit():
+        return "digit-first"
+    if len(ascii_alnum) == len(t):
+        return "plain-ascii-alnum"
+    return "mixed"
+
+
+def titled_documents(t, rng):
+    """(position, schema, values): the object schema titled `t` at each place of a document where the parser builds a class"""
+    def obj(title=t):
+        return {"type": "object", "title": title, "properties": {"id": {"type": "integer"}}, "required": ["id"]}
+    good, bad = {"id": 1}, {"id": "s"}
+    yield "top", obj(), [good, bad, {}, 1]
+    yield "top-bare", {"type": "object", "title": t}, [{}, {"a": 1}, []]
+    yield "type-list", {"type": ["object", "null"], "title": t, "required": ["id"]}, [good, None, {}, 1]
+    yield "property", {"type": "object", "title": "Outer", "properties": {"p": obj()}}, [{"p": good}, {"p": bad}, {}, {"p": 1}]
+    yield "items", {"type": "array", "items": obj()}, [[good], [bad], [], [1]]
+    yield "items-tuple", {"items": [{"type": "string"}, obj()]}, [["a", good], ["a", bad], ["a"]]
+    yield "additionalProperties", {"type": "object", "title": "Outer", "additionalProperties": obj()}, [{"k": good}, {"k": bad}, {}]
+    yield "patternProperties", {"patternProperties": {"^a": obj()}}, [{"a": good}, {"a": bad}, {"b": bad}]
+    yield "dependencies", {"dependencies": {"a": obj()}}, [{"a": 1, "id": 1}, {"a": 1}, {}]
+    yield "propertyNames-sibling", {"type": "object", "title": t, "propertyNames": {"maxLength": 2}}, [{"ab": 1}, {"abc": 1}]
+    key = rng.choice(["anyOf", "oneOf", "allOf"])
+    yield key, {key: [obj(), {"type": ["object", "string"], "title": "Plain"}]}, [good, bad, "s", 1]
+    yield "not", {"not": obj()}, [good, bad, 1]
+    yield "siblings-same-title", {"type": "object", "title": "Outer", "properties": {"p": obj(), "q": {"type": "object", "title": t}}}, [{"p": good, "q": {}}, {"q": 1}]
+    yield "autotitle", {"type": "object", "_x_autotitle": t, "properties": {"id": {"type": "integer"}}}, [good, bad]
+    yield "title-over-autotitle", {"type": "object", "title": t, "_x_autotitle": "Fallback"}, [{}, 1]
+    yield "autotitle-under-title", {"type": "object", "title": "Named", "_x_autotitle": t}, [{}, 1]
+    yield "non-object", {"type": rng.choice(["string", "integer", "array", "null"]), "title": t}, ["a", 1, [], None]
+    yield "untyped", {"title": t, "properties": {"id": {"type": "integer"}}}, [good, bad]
+
+
+def retitle(schema, rng, seen):
+    """copy of a generated schema with the title of every titled typed subschema replaced by a random title"""
+    if isinstance(schema, list):
+        return [retitle(x, rng, seen) for x in schema]
+    if not isinstance(schema, dict):
+        return schema
+    new = {k: retitle(v, rng, seen) for k, v in schema.items()}
+    if isinstance(schema.get("title"), str) and "type" in schema and not isinstance(schema["type"], dict):
+        t = random_title(rng)
+        if not core.has_surrogate(t):
+            new["title"] = t
+            seen.append(t)
+    return new
+
 
 def deep(n, leaf=1):
     v = leaf
     for i in range(n):
         v = [v] if i % 2 == 0 else {"k": v}
     return v
+
+
+def bump(stats, key):
+    stats[key] = stats.get(key, 0) + 1
 
 
 def classify_exc(real, model_r):
@@ -126,6 +214,27 @@ def run(ctx, scale=1.0):
                 values.append(rng.choice(UNICODE))
                 values.append({rng.choice(UNICODE): rng.choice(UNICODE)})
             check_case(drv, schema, values, out, stats)
+            if i % 4 == 0:
+                # the same document under arbitrary titles (titles are annotations: any string is metaschema-valid)
+                seen = []
+                again = retitle(schema, rng, seen)
+                if seen:
+                    for t in seen:
+                        bump(stats, "title-retitled-stream-" + title_shape(t))
+                    check_case(drv, again, values[:4] + [core.NP], out, stats)
+        # titles from the whole string space, at every place of a document where the parser builds a class from them
+        n_random = int((260 if ctx["tier"] == "quick" else 6000) * scale)
+        titles = [(t, None) for t in FIXED_TITLES] + [(random_title(rng), 3) for _ in range(n_random)]
+        for t, k in titles:
+            if core.has_surrogate(t):
+                continue
+            docs = list(titled_documents(t, rng))
+            if k is not None:
+                docs = rng.sample(docs, k)
+            for position, schema, values in docs:
+                bump(stats, "title-" + title_shape(t))
+                bump(stats, "title-at-" + position)
+                check_case(drv, schema, values, out, stats)
         for schema, values in families(rng):
             check_case(drv, schema, list(values) + [10 ** 400, 2 ** 1024, 1e308, -1e308, 5e-324, 2 ** 53 + 1, core.NP], out, stats)
         # unusual property names / titles (parse side)
@@ -174,6 +283,8 @@ def run(ctx, scale=1.0):
                 probe_format(fmt, strings[chunk:chunk + 40], out, stats)
     finally:
         drv.close()
+    # report the smallest failing input first (stable: equal sizes keep the order they were found in)
+    out.failures.sort(key=lambda f: len(repr(jsonable(f.get("case")))))
     out.stats = stats
     return out
 
